@@ -39,7 +39,7 @@ func TestWorldRealFactory(t *testing.T) {
 type mon struct {
 	w        *world.World
 	t        *rapid.T
-	opProc   map[string]string // op tag -> "proc.gen"
+	opProc   map[string]string          // op tag -> "proc.gen"
 	handed   map[string]map[string]bool // proc.gen|partition -> set of underlying session pointers handed out
 	mismatch map[string]bool            // SK fingerprints involved in the known parent-mismatch leak
 	kinds    map[string]bool
@@ -164,7 +164,7 @@ func (m *mon) after(ev *world.Event) {
 			m.kinds["duplicate-key-fallback"] = true
 		}
 	}
-	created := w.Secrets.Infos()[ev.SecretFrom:ev.SecretTo]
+	created := w.Secrets.InfosRange(ev.SecretFrom, ev.SecretTo)
 	// known finding: remember the SK involved so that the final accounting can attribute it
 	for _, si := range created {
 		if si.Closed == 0 && w.IsParentMismatchSKLeak(ev, si) {
